@@ -122,7 +122,8 @@ class OpsMixin:
             try:
                 res = self.call(lambda rep=rep, reals=reals: real_fn(rep, reals))
                 if res[0] == "exc" and res[1] == "SubqueryError":
-                    res = self.call(lambda rep=rep, reals=reals: real_fn(rep, [t >> pdt.alias() for t in reals]))
+                    keep = bool(self.cfg.get("hold_refs", True))
+                    res = self.call(lambda rep=rep, reals=reals: real_fn(rep, [t >> pdt.alias(keep_col_refs=keep) for t in reals]))
             except Skip:
                 continue
             if res[0] == "ok":
@@ -289,8 +290,8 @@ class OpsMixin:
             tok = m.tok_of_name(step["name"])
             expect_ok = tok is not None
         out = {}
-        for rep in self.live_reps(pt):
-            t = pt.real[rep]
+        for rep in self.live_reps(pt) + [r for r in self.cq_reps if r in pt.cq]:
+            t = pt.real[rep] if rep in pt.real else pt.cq[rep]
             if how == "attr":
                 res = self.call(lambda t=t: getattr(t, step["name"]))
             elif how == "item":
